@@ -98,6 +98,15 @@ func (ao *Array) Next() (Object, Object, bool) {
 
 // JSON converts this object to a JSON string
 func (ao *Array) JSON() (string, error) {
+	return ao.json(0)
+}
+
+// json is the implementation of JSON, for an array which is the given
+// number of containers deep.
+func (ao *Array) json(depth int) (string, error) {
+	if depth > maxNesting {
+		return "", fmt.Errorf("value is nested more than %d levels deep", maxNesting)
+	}
 	var out bytes.Buffer
 	elements := make([]string, 0)
 	for _, e := range ao.Elements {
@@ -109,7 +118,7 @@ func (ao *Array) JSON() (string, error) {
 		}
 
 		// OK we can cast it, get the value
-		tmp, err := helper.JSON()
+		tmp, err := jsonNested(helper, depth+1)
 		if err != nil {
 			return "", err
 		}
